@@ -4,7 +4,7 @@
    real constant on every run (Gen/C10.v) and enters through the side conditions of Proofs/SideC10.v.
    The transport (a *net.TCPConn) is the chunk oracle of Base/Chunks.v: every statement is `forall c` (chunking).
    Nothing is bounded: frame lists, write scripts, read-buffer size sequences, byte strings are arbitrary. *)
-From TX Require Import Model.CrossFrame Proofs.CrossFrame Proofs.SideC10 Gen.C10.
+From TX Require Import Model.CrossFrame Proofs.CrossFrame Model.Forward Proofs.Forward Proofs.SideC10 Gen.C10.
 Close Scope N_scope.
 
 (* (1) every list of frames the writers accept decodes to itself under every chunking, then a clean io.EOF *)
@@ -170,3 +170,68 @@ Theorem C10_premises_satisfiable :
     [RData [1;2;3]; RData [4]; RData [5;6;7;8]; RData [9;10]; RData [11]; REof]%N.
 Proof. exact premises_satisfiable. Qed.
 Print Assumptions C10_premises_satisfiable.
+
+(* ------------------------------------------------------------------------------------------------------------
+   The bidirectional forwarder (runBidirectionalForward): two copy loops, one per direction, each with ITS OWN
+   buffer, interleaved at the granularity of one Read / one Write call by an ARBITRARY schedule (Base/Threads.v;
+   token 0 = a step of the upload loop, 1 = of the download loop, anything else = some other goroutine).
+   Sources are arbitrary lists of chunks (what each Read returns), initial buffer contents are arbitrary. *)
+
+(* NON-INTERFERENCE: after any schedule, what a direction has delivered equals what its loop delivers running alone for
+   as many steps as the schedule gave it — a function of its own source only *)
+Theorem C10_forward_directions_independent :
+  forall (bu bd : list byte) (up down : list (list byte)) (sched : list nat),
+  sink_up (frun false (finit bu bd up down) sched)
+    = d_snk (snd (Nat.iter (count_occ Nat.eq_dec sched 0) solo (PRead, {| d_buf := bu; d_src := up; d_snk := [] |}))) /\
+  sink_down (frun false (finit bu bd up down) sched)
+    = d_snk (snd (Nat.iter (count_occ Nat.eq_dec sched 1) solo (PRead, {| d_buf := bd; d_src := down; d_snk := [] |}))).
+Proof. exact directions_independent. Qed.
+Print Assumptions C10_forward_directions_independent.
+
+Theorem C10_forward_upload_ignores_download :
+  forall bu bd bd' up down down' sched,
+  sink_up (frun false (finit bu bd up down) sched) = sink_up (frun false (finit bu bd' up down') sched).
+Proof. exact upload_ignores_download. Qed.
+Print Assumptions C10_forward_upload_ignores_download.
+
+Theorem C10_forward_download_ignores_upload :
+  forall bu bu' bd up up' down sched,
+  sink_down (frun false (finit bu bd up down) sched) = sink_down (frun false (finit bu' bd up' down) sched).
+Proof. exact download_ignores_upload. Qed.
+Print Assumptions C10_forward_download_ignores_upload.
+
+(* both directions at once: at every moment each has delivered a prefix of ITS source, unchanged and in order, and all
+   of it once its loop has ended *)
+Theorem C10_forward_conserves :
+  forall bu bd up down sched,
+  let s := frun false (finit bu bd up down) sched in
+  (exists rest, sink_up s ++ rest = concat up) /\ (exists rest, sink_down s ++ rest = concat down) /\
+  (phase_of 0 s = PDone -> sink_up s = concat up) /\ (phase_of 1 s = PDone -> sink_down s = concat down).
+Proof. exact forward_conserves. Qed.
+Print Assumptions C10_forward_conserves.
+
+(* completeness: once a direction has been given two steps per chunk plus the EOF read — interleaved in any way with
+   the other direction — it has ended and delivered everything *)
+Theorem C10_forward_completes :
+  forall bu bd up down sched,
+  (2 * length up + 1 <= count_occ Nat.eq_dec sched 0 ->
+     phase_of 0 (frun false (finit bu bd up down) sched) = PDone /\ sink_up (frun false (finit bu bd up down) sched) = concat up) /\
+  (2 * length down + 1 <= count_occ Nat.eq_dec sched 1 ->
+     phase_of 1 (frun false (finit bu bd up down) sched) = PDone /\ sink_down (frun false (finit bu bd up down) sched) = concat down).
+Proof. exact forward_completes. Qed.
+Print Assumptions C10_forward_completes.
+
+(* the variant with ONE buffer shared by both loops (io.CopyBuffer with a common copyBuf) violates both: schedule
+   upload-Read, download-Read, upload-Write delivers the download's bytes upstream *)
+Theorem C10_forward_shared_buffer_refuted :
+  exists up down down' sched,
+    sink_up (frun true (finit [] [] up down) sched) <> sink_up (frun true (finit [] [] up down') sched) /\
+    ~ (exists rest, sink_up (frun true (finit [] [] up down) sched) ++ rest = concat up).
+Proof. exact shared_buffer_refuted. Qed.
+Print Assumptions C10_forward_shared_buffer_refuted.
+
+Theorem C10_forward_example :
+  let s := frun false (finit [9;9]%N [] [[1;2;3]; [4]]%N [[7;8]]%N) [0; 1; 0; 0; 1; 7; 1; 0; 0] in
+  sink_up s = [1;2;3;4]%N /\ sink_down s = [7;8]%N /\ phase_of 0 s = PDone /\ phase_of 1 s = PDone.
+Proof. exact forward_example. Qed.
+Print Assumptions C10_forward_example.
